@@ -542,8 +542,8 @@ def refusal_class(k, spec, exp):
 
 
 def refused_on_stored(op, oids, err=None):
-    """`refused-on-stored-too`: the library refuses the same update or replacement, with the same
-    error, on a STORED copy of the document the filter's equalities describe (a twin: that
+    """`refused-on-stored-too`: the library refuses the same update or replacement (with whatever
+    error: which one depends on the filter the positional machinery is handed) on a STORED copy of the document the filter's equalities describe (a twin: that
     document inserted into an empty collection, then the call without upsert, aimed at it by its
     `_id`): the refusal is the operator's (C02 states the operators on stored documents), the
     upsert only passes it on.  A refusal that stems from building the document - the seed, the
@@ -560,7 +560,7 @@ def refused_on_stored(op, oids, err=None):
         t = histcheck.run_history([['insert_one', seed], op], oids)
     except Exception:  # pylint: disable=broad-except
         return None
-    if len(t) == 2 and t[0].out[0] == 'val' and t[1].out[0] == 'err' and err in (None, t[1].out[1]):
+    if len(t) == 2 and t[0].out[0] == 'val' and t[1].out[0] == 'err':
         return 'refused-on-stored-too'
     return None
 
